@@ -14,7 +14,7 @@ ordering (:109-121), `get_slice_strides` (:124), the slicing-state part of `remo
 the selectors of `slice_arrays` (:3272), `gather_slices` with `recursively_stack_chunks`
 (:3295-3350, without exponent stripping) and `gen_output_chunks` (:3352-3409).
 
-Arrays are functional (`Arr`: shape + element function); `Arr.add`, `Arr.stack`, `Arr.select`
+Arrays are functional (`IArr`: shape + element function); `IArr.add`, `IArr.stack`, `IArr.select`
 model `+`, `numpy.stack` and basic indexing and are *trusted* (validated against numpy by the
 harness).  The per-slice contraction itself (`contract_core`) is not part of C06: theorems take
 the per-slice results as an arbitrary family `S : slice number → array` (Part I, II) or as
@@ -115,7 +115,7 @@ theorem chunk_keys_cover (n : Net) (sl : List SliceInfo) (hs : Sorted sl) (hf : 
 /-- what `gen_output_chunks` yields: chunk `o` is the sum of the slices
     `o*stepsize, …, o*stepsize + stepsize - 1`, with key `slice_key` of the output indices -/
 theorem genOutputChunks_spec (n : Net) (sl : List SliceInfo) (hs : Sorted sl) (hf : Flags n sl)
-    (hpos : 0 < stepsize sl) (C : Nat → Arr) (o : Nat) (ho : o < nchunks sl) :
+    (hpos : 0 < stepsize sl) (C : Nat → IArr) (o : Nat) (ho : o < nchunks sl) :
     ∃ a, (genOutputChunks n.output sl (prodSizes sl) C)[o]? = some (a, sliceKey (outs sl) o) ∧
       ∀ idx, a.get idx = ((List.range (stepsize sl)).map fun j => (C (o * stepsize sl + j)).get idx).sum := by
   have hdiv : prodSizes sl / stepsize sl = nchunks sl := by
@@ -132,7 +132,7 @@ theorem genOutputChunks_spec (n : Net) (sl : List SliceInfo) (hs : Sorted sl) (h
   obtain ⟨s, hs'⟩ : ∃ s, stepsize sl = s + 1 := ⟨stepsize sl - 1, by omega⟩
   simp only [hs', Nat.add_sub_cancel]
   rw [List.foldl_map]
-  have hfold : ∀ (l : List Nat) (a : Arr),
+  have hfold : ∀ (l : List Nat) (a : IArr),
       (l.foldl (fun acc j => acc.add (C (o * (s + 1) + (j + 1)))) a).get idx =
         a.get idx + (l.map fun j => (C (o * (s + 1) + (j + 1))).get idx).sum := by
     intro l
@@ -141,7 +141,7 @@ theorem genOutputChunks_spec (n : Net) (sl : List SliceInfo) (hs : Sorted sl) (h
     | cons b t ih =>
       intro a
       rw [List.foldl_cons, ih, List.map_cons, List.sum_cons]
-      simp only [Arr.add]; omega
+      simp only [IArr.add]; omega
   rw [hfold, range_succ_eq, List.map_cons, List.sum_cons, List.map_map]
   rfl
 
@@ -179,7 +179,7 @@ theorem stack_axes (sl : List SliceInfo) (out : List Ix) (hn : out.Nodup)
     output indices being axes of length 1 — is the sum of the elements at `σ` of exactly those
     slices whose output key agrees with `σ` (projected: with the projected value). -/
 theorem gather_denote (out : List Ix) (hn : out.Nodup) (sl : List SliceInfo) (hwf : WF sl)
-    (hnd : (sl.map (·.ind)).Nodup) (hpos : ∀ s ∈ sl, 0 < s.size) (S : Nat → Arr) (σ : Ix → Nat)
+    (hnd : (sl.map (·.ind)).Nodup) (hpos : ∀ s ∈ sl, 0 < s.size) (S : Nat → IArr) (σ : Ix → Nat)
     (hσ : ∀ p ∈ outputPos sl out, InRange sl σ p.1) (hne : outputPos sl out ≠ []) :
     ∃ R, gatherSlices out sl ((List.range (prodSizes sl)).map S) = some R ∧
       denote out R σ =
@@ -211,7 +211,7 @@ theorem gather_denote (out : List Ix) (hn : out.Nodup) (sl : List SliceInfo) (hw
   simp [chunkGet, optGet, denote]
 
 /-- **gather, no sliced output index**: the result is the plain sum of all slices -/
-theorem gather_sum (out : List Ix) (sl : List SliceInfo) (S : Nat → Arr)
+theorem gather_sum (out : List Ix) (sl : List SliceInfo) (S : Nat → IArr)
     (hne : outputPos sl out = []) (hpos : 0 < prodSizes sl) :
     ∃ R, gatherSlices out sl ((List.range (prodSizes sl)).map S) = some R ∧
       ∀ idx, R.get idx = ((List.range (prodSizes sl)).map fun i => (S i).get idx).sum := by
@@ -300,7 +300,7 @@ theorem sumOver_order_irrelevant {R₁ R₂ : List (Ix × List Nat)} (hp : R₁.
     `slice_key(i)` — for every kind of sliced index (inner, output, hyper, repeated inside a
     tensor, carried by a single tensor, projected). -/
 theorem slice_is_section (n : Net) (st : SliceState) (hinv : Inv n st) (inner : List Ix)
-    (A : List Arr) (hA : A.length = n.inputs.length) (i : Nat) (σ : Ix → Nat) :
+    (A : List IArr) (hA : A.length = n.inputs.length) (i : Nat) (σ : Ix → Nat) :
     sliceEinsum n st inner A i σ =
       sumOver (restRanges n st.slicedInds inner) (prodTerms n A) (ov σ (sliceKey st.slicedInds i)) :=
   sliceEinsum_eq n st hinv inner A hA i σ
@@ -311,7 +311,7 @@ theorem slice_is_section (n : Net) (st : SliceState) (hinv : Inv n st) (inner : 
 theorem slice_sum (n : Net) (st : SliceState) (hinv : Inv n st) (inner : List Ix)
     (hin : inner.Nodup) (hdisj : ∀ ix ∈ inner, ix ∉ n.output)
     (hcover : ∀ s ∈ st.slicedInds, s.ind ∉ n.output → s.ind ∈ inner)
-    (A : List Arr) (hA : A.length = n.inputs.length) (σ : Ix → Nat)
+    (A : List IArr) (hA : A.length = n.inputs.length) (σ : Ix → Nat)
     (hσ : ∀ s ∈ outs st.slicedInds, InRange st.slicedInds σ s.ind) :
     ((List.range (prodSizes st.slicedInds)).map fun i =>
         if chunkKey st.slicedInds (outputPos st.slicedInds n.output) i =
@@ -389,7 +389,7 @@ theorem gather_correct (n : Net) (st : SliceState) (hinv : Inv n st) (hout : n.o
     (hpos : ∀ ix, 0 < n.size ix) (inner : List Ix) (hin : inner.Nodup)
     (hdisj : ∀ ix ∈ inner, ix ∉ n.output)
     (hcover : ∀ s ∈ st.slicedInds, s.ind ∉ n.output → s.ind ∈ inner)
-    (A : List Arr) (hA : A.length = n.inputs.length) (S : Nat → Arr)
+    (A : List IArr) (hA : A.length = n.inputs.length) (S : Nat → IArr)
     (hS : ∀ i σ, denote ((slicedNet n st.slicedInds).output) (S i) σ = sliceEinsum n st inner A i σ) :
     ∃ R, gatherSlices n.output st.slicedInds ((List.range (prodSizes st.slicedInds)).map S) = some R ∧
       ∀ σ, (∀ s ∈ outs st.slicedInds, InRange st.slicedInds σ s.ind) →
@@ -471,7 +471,7 @@ theorem gather_correct (n : Net) (st : SliceState) (hinv : Inv n st) (hout : n.o
 /-- `gather_correct` for the canonical list of summed indices of the network -/
 theorem gather_correct_canonical (n : Net) (st : SliceState) (hinv : Inv n st) (hout : n.output.Nodup)
     (hpos : ∀ ix, 0 < n.size ix) (hmem : ∀ s ∈ st.slicedInds, s.ind ∈ n.allIx)
-    (A : List Arr) (hA : A.length = n.inputs.length) (S : Nat → Arr)
+    (A : List IArr) (hA : A.length = n.inputs.length) (S : Nat → IArr)
     (hS : ∀ i σ, denote ((slicedNet n st.slicedInds).output) (S i) σ =
       sliceEinsum n st (innerIxs n) A i σ) :
     ∃ R, gatherSlices n.output st.slicedInds ((List.range (prodSizes st.slicedInds)).map S) = some R ∧
@@ -494,7 +494,7 @@ theorem gather_einsum_slices (n : Net) (st : SliceState) (hinv : Inv n st) (hout
     (hdisj : ∀ ix ∈ inner, ix ∉ n.output)
     (hall : ∀ c, ∀ ix ∈ n.term c, ix ∈ n.output ∨ ix ∈ inner)
     (hcover : ∀ s ∈ st.slicedInds, s.ind ∉ n.output → s.ind ∈ inner)
-    (A : List Arr) (hA : A.length = n.inputs.length) :
+    (A : List IArr) (hA : A.length = n.inputs.length) :
     ∃ R, gatherSlices n.output st.slicedInds
         ((List.range (prodSizes st.slicedInds)).map (sliceResult n st inner A)) = some R ∧
       ∀ σ, (∀ s ∈ outs st.slicedInds, InRange st.slicedInds σ s.ind) →
@@ -510,7 +510,7 @@ theorem chunk_correct (n : Net) (st : SliceState) (hinv : Inv n st) (hpos : ∀ 
     (inner : List Ix) (hin : inner.Nodup) (hdisj : ∀ ix ∈ inner, ix ∉ n.output)
     (hall : ∀ c, ∀ ix ∈ n.term c, ix ∈ n.output ∨ ix ∈ inner)
     (hcover : ∀ s ∈ st.slicedInds, s.ind ∉ n.output → s.ind ∈ inner)
-    (A : List Arr) (hA : A.length = n.inputs.length) (o : Nat) (ho : o < nchunks st.slicedInds) :
+    (A : List IArr) (hA : A.length = n.inputs.length) (o : Nat) (ho : o < nchunks st.slicedInds) :
     ∃ a, (genOutputChunks n.output st.slicedInds (prodSizes st.slicedInds)
         (sliceResult n st inner A))[o]? = some (a, sliceKey (outs st.slicedInds) o) ∧
       ∀ σ, denote (slicedNet n st.slicedInds).output a σ =
@@ -535,7 +535,7 @@ theorem chunk_correct (n : Net) (st : SliceState) (hinv : Inv n st) (hpos : ∀ 
     `[[1,2],[3,4]]` with itself -/
 def mmNet : Net := { inputs := [[0, 1], [1, 2]], output := [0, 2], sizes := [(0, 2), (1, 2), (2, 2)] }
 def mmState : SliceState := runOps mmNet [.remove 1 none, .remove 0 none]
-def mmArr : Arr := { shape := [2, 2], get := fun idx => 1 + 2 * (idx.getD 0 0 : Nat) + (idx.getD 1 0 : Nat) }
+def mmArr : IArr := { shape := [2, 2], get := fun idx => 1 + 2 * (idx.getD 0 0 : Nat) + (idx.getD 1 0 : Nat) }
 
 example : mmState = ⟨[⟨false, 0, 2, none⟩, ⟨true, 1, 2, none⟩], 4, [0, 1]⟩ := by decide
 example : ((gatherSlices mmNet.output mmState.slicedInds
